@@ -76,6 +76,8 @@ type stats struct {
 	Violations  []Violation       `json:"violations"`
 	Notes       map[string]string `json:"notes"`
 	Events      map[int]uint64    `json:"events"`
+	Sets        map[string][]uint64 `json:"sets"` // named distinct sets (measures of reach), as sorted hash lists
+	sets        map[string]map[uint64]struct{}
 	dset        map[uint64]struct{}
 	AbortedAt   int    `json:"aborted_at"` // run index at which a hang forced the worker to stop, -1 otherwise
 	Fatal       string `json:"fatal"`      // harness self-check failure (exit 2)
@@ -84,7 +86,7 @@ type stats struct {
 const distinctCap = 3000000
 
 func newStats() *stats {
-	return &stats{Counters: map[string]int64{}, dset: map[uint64]struct{}{}, Notes: map[string]string{}, Events: map[int]uint64{}, AbortedAt: -1}
+	return &stats{Counters: map[string]int64{}, dset: map[uint64]struct{}{}, Notes: map[string]string{}, Events: map[int]uint64{}, AbortedAt: -1, sets: map[string]map[uint64]struct{}{}}
 }
 
 // Eval counts one evaluated case; h identifies it for the distinct count and
@@ -108,6 +110,20 @@ func (c *Ctx) EvalN(n int64) { c.st.Evaluations += n }
 // self-test).
 func (c *Ctx) Event(s string) {
 	c.st.Events[c.Run] = Hash64([]byte(fmt.Sprintf("%x|%s", c.st.Events[c.Run], s)))
+}
+
+// Distinct adds a hash to a named distinct set; the sizes of these sets are
+// reported in coverage.distinct_sets (a stated measure of reach, e.g. the
+// site pairs adjacent across a context switch).
+func (c *Ctx) Distinct(name string, h uint64) {
+	m := c.st.sets[name]
+	if m == nil {
+		m = map[uint64]struct{}{}
+		c.st.sets[name] = m
+	}
+	if len(m) < 500000 {
+		m[h] = struct{}{}
+	}
 }
 
 func (c *Ctx) Steps(n int64)            { c.st.Steps += n }
@@ -295,6 +311,14 @@ func doWorker(spec *Spec, tier string, seed uint64, worker string, from int, out
 }
 
 func writeWorkerResult(st *stats, out string) int {
+	st.Sets = map[string][]uint64{}
+	for name, m := range st.sets {
+		l := make([]uint64, 0, len(m))
+		for h := range m {
+			l = append(l, h)
+		}
+		st.Sets[name] = l
+	}
 	st.Distinct = make([]uint64, 0, len(st.dset))
 	for h := range st.dset {
 		st.Distinct = append(st.Distinct, h)
@@ -719,6 +743,26 @@ func mergeStats(a, b *stats) {
 	for k, v := range b.Events {
 		a.Events[k] = v
 	}
+	for name, l := range b.Sets {
+		m := a.sets[name]
+		if m == nil {
+			m = map[uint64]struct{}{}
+			a.sets[name] = m
+		}
+		for _, h := range l {
+			m[h] = struct{}{}
+		}
+	}
+	for name, bm := range b.sets {
+		m := a.sets[name]
+		if m == nil {
+			m = map[uint64]struct{}{}
+			a.sets[name] = m
+		}
+		for h := range bm {
+			m[h] = struct{}{}
+		}
+	}
 	for _, h := range b.Distinct {
 		if len(a.dset) < distinctCap {
 			a.dset[h] = struct{}{}
@@ -884,6 +928,13 @@ func writeEvidence(spec *Spec, tier string, seed uint64, st *stats, wall float64
 	cov["reach_probes"] = probes
 	cov["counters"] = other
 	cov["distinct_states_measure"] = spec.StateMetric
+	if len(st.sets) > 0 {
+		ds := map[string]int{}
+		for name, m := range st.sets {
+			ds[name] = len(m)
+		}
+		cov["distinct_sets"] = ds
+	}
 	cov["components"] = spec.Components
 	cov["workers"] = workers
 	{
